@@ -74,6 +74,11 @@ type RunCtx struct {
 	// clause instead of an infrastructure error.
 	StallClause string
 	StallFacts  map[string]string
+	// TolerateLeftover: goroutines still blocked when the run's bubble is
+	// left are counted (probe) but are not an infrastructure error. Set by
+	// engines whose property says nothing about them (free-running race
+	// detection).
+	TolerateLeftover bool
 
 	fp     []byte
 	states map[string]struct{}
